@@ -693,6 +693,26 @@ func cases(tier, path string) {
 	w.decU(append(le32(crcGzip), putMessage([]byte{1, 2, 3, 4, 5})...), nil, "gzip-bad")
 	gzok := gzipBytes(le32(0x997275b5))
 	w.decU(append(le32(crcGzip), putMessage(gzok[:len(gzok)-6])...), nil, "gzip-truncated")
+	// streams that fail with an error OTHER than (unexpected) EOF: complete data but a wrong CRC-32
+	// trailer, a wrong ISIZE, a damaged deflate block, trailing garbage, a second damaged member
+	for _, inner := range [][]byte{le32(0x997275b5), append(le32(0x1cb5c415), le32(0)...), bytes.Repeat([]byte{0xb5, 0x75, 0x72, 0x99}, 300)} {
+		ok := gzipBytes(inner)
+		var damaged [][]byte
+		for _, at := range []int{len(ok) - 8, len(ok) - 5, len(ok) - 4, len(ok) - 1, 10, 11, len(ok) / 2, 3} {
+			if at >= 0 && at < len(ok) {
+				d := append([]byte{}, ok...)
+				d[at] ^= 0x5a
+				damaged = append(damaged, d)
+			}
+		}
+		damaged = append(damaged, append(append([]byte{}, ok...), 0xde, 0xad, 0xbe, 0xef), append(append([]byte{}, ok...), ok[:len(ok)-3]...),
+			append(append([]byte{}, ok...), ok...))
+		for _, d := range damaged {
+			packed := append(le32(crcGzip), putMessage(d)...)
+			w.decU(packed, nil, "gzip-damaged")
+			w.decU(append(append(le32(0xf35c6d01), []byte{1, 0, 0, 0, 2, 0, 0, 0}...), packed...), nil, "gzip-damaged")
+		}
+	}
 	// vector counts
 	for _, cnt := range []uint32{0xffffffff, 0x80000000, 0x7fffffff, 0x40000000, 1000} {
 		b := append(append(le32(0x1cb5c415), le32(cnt)...), le32(5)...)
